@@ -124,16 +124,18 @@ Definition grew_below_minimum (pre post : obs) : bool :=
   (o_hp pre <? o_hp post) && negb (o_mlfd pre =? 0) &&
   (o_size pre * o_mlfd pre <? o_mlfn pre * (N.shiftl 1 (o_hp post - 1) * spb_)).
 
-Definition judge_insertish (s : sst) (a : nat) (t : stab) (pre post : obs) (r : out) (exp : out) (m' : smap)
+(* [present]: the key is in the reference map.  An insertion-type call on a present key finds the duplicate before any
+   expansion, so it can never end in a policy exception (InsertLemmas / NoFuel.uprase_gen_present_no_exn). *)
+Definition judge_insertish (present : bool) (s : sst) (a : nat) (t : stab) (pre post : obs) (r : out) (exp : out) (m' : smap)
   (cl : clause) : verdict :=
   if grew_below_minimum pre post then
     (if out_eqb r exp then blame (inval (put_m s a t m')) C10_limit else blame (inval s) C10_limit)
   else
   if out_eqb r exp then ok (inval (put_m s a t m'))
   else if is_exn r EMaxHashpower then
-    if maxhp_allowed pre post None then ok (inval s) else blame (inval s) C10_limit
+    if negb present && maxhp_allowed pre post None then ok (inval s) else blame (inval s) C10_limit
   else if is_exn r ELoadFactorTooLow then
-    if lf_allowed pre then ok (inval s) else blame (inval s) C10_limit
+    if negb present && lf_allowed pre then ok (inval s) else blame (inval s) C10_limit
   else blame (inval s) cl.
 
 Definition fn_out (found : option Z) (newly : bool) : out :=
@@ -275,51 +277,55 @@ Definition judge_op (s : sst) (a : nat) (o : op) (r : out) (pre post : obs) : ve
       end
     | OInsert k v =>
       match sfind k m with
-      | Some _ => judge_insertish s a t pre post r [RBool false] m C02_result
-      | None => judge_insertish s a t pre post r [RBool true] (sset k v m) C02_result
+      | Some _ => judge_insertish true s a t pre post r [RBool false] m C02_result
+      | None => judge_insertish false s a t pre post r [RBool true] (sset k v m) C02_result
       end
     | OIoa k v =>
       match sfind k m with
-      | Some _ => judge_insertish s a t pre post r [RBool false] (sset k v m) C02_result
-      | None => judge_insertish s a t pre post r [RBool true] (sset k v m) C02_result
+      | Some _ => judge_insertish true s a t pre post r [RBool false] (sset k v m) C02_result
+      | None => judge_insertish false s a t pre post r [RBool true] (sset k v m) C02_result
       end
     | OUpsert k f two v =>
       match sfind k m with
       | Some v0 =>
-        judge_insertish s a t pre post r [RBool false; RFn v0 false] (sset k (fst (fapply f v0 false)) m) C17_functor
+        judge_insertish true s a t pre post r [RBool false; RFn v0 false] (sset k (fst (fapply f v0 false)) m) C17_functor
       | None =>
-        if two then judge_insertish s a t pre post r [RBool true; RFn v true] (sset k (fst (fapply f v true)) m) C17_functor
-        else judge_insertish s a t pre post r [RBool true] (sset k v m) C17_functor
+        if two then judge_insertish false s a t pre post r [RBool true; RFn v true] (sset k (fst (fapply f v true)) m) C17_functor
+        else judge_insertish false s a t pre post r [RBool true] (sset k v m) C17_functor
       end
     | OUprase k f two v =>
       match sfind k m with
       | Some v0 =>
         let '(v', er) := fapply f v0 false in
-        judge_insertish s a t pre post r [RBool false; RFn v0 false] (if er then sremove k m else sset k v' m) C17_functor
+        judge_insertish true s a t pre post r [RBool false; RFn v0 false] (if er then sremove k m else sset k v' m) C17_functor
       | None =>
         if two then
           let '(v', er) := fapply f v true in
-          judge_insertish s a t pre post r [RBool true; RFn v true] (if er then m else sset k v' m) C17_functor
-        else judge_insertish s a t pre post r [RBool true] (sset k v m) C17_functor
+          judge_insertish false s a t pre post r [RBool true; RFn v true] (if er then m else sset k v' m) C17_functor
+        else judge_insertish false s a t pre post r [RBool true] (sset k v m) C17_functor
       end
     | ORehash n | LRehash n =>
       if is_exn r EMaxHashpower then
         (* the request itself may exceed the maximum, or the rebuild may need more than the maximum
-           allows for the present contents: both need a configured maximum *)
-        if negb (o_mhp pre =? NO_MAXIMUM_HASHPOWER) then ok (inval s) else blame (inval s) C10_limit
+           allows for the present contents: both need a configured maximum; a request for the current
+           size returns false before anything is checked *)
+        if negb (o_mhp pre =? NO_MAXIMUM_HASHPOWER) && negb (n =? o_hp pre) then ok (inval s) else blame (inval s) C10_limit
       else if is_exn r ELoadFactorTooLow then blame (inval s) C10_limit  (* explicit requests never throw it *)
       else
         let changed := negb (n =? o_hp pre) in
         let res_ok := match o with ORehash _ => out_eqb r [RBool changed] | _ => out_eqb r [RNone] end in
         if res_ok && (n <=? o_hp post) then ok (inval s) else blame (inval s) C10_limit
     | OReserve n | LReserve n =>
+      (* the hashpower the request asks for (Core.reserve_calc depends on the slots per bucket only) *)
+      let target := reserve_calc {| spb := spb_; lbits := 0; simple := true; nothrow := true; destructive := false |} n in
+      let changed := negb (target =? o_hp pre) in
       if is_exn r EMaxHashpower then
-        if negb (o_mhp pre =? NO_MAXIMUM_HASHPOWER) then ok (inval s) else blame (inval s) C10_limit
+        if negb (o_mhp pre =? NO_MAXIMUM_HASHPOWER) && changed then ok (inval s) else blame (inval s) C10_limit
       else if is_exn r ELoadFactorTooLow then blame (inval s) C10_limit
       else
         let big_enough := n <=? N.shiftl 1 (o_hp post) * spb_ in
-        let is_bool := match r with [RBool _] => true | [RNone] => true | _ => false end in
-        if is_bool && big_enough then ok (inval s) else blame (inval s) C10_limit
+        let res_ok := match o with OReserve _ => out_eqb r [RBool changed] | _ => out_eqb r [RNone] end in
+        if res_ok && big_enough then ok (inval s) else blame (inval s) C10_limit
     | OClear | LClear =>
       if out_eqb r [RNone] then ok (inval (put_m s a t [])) else blame (inval s) C02_result
     | OMlf x =>
